@@ -311,6 +311,16 @@ def make_numpy(it):
             raise EngineError("2-D allocation")
         raise EngineError(f"allocation of symbolic length {n!r}")
 
+    def np_setdiff1d(it, a, b, **k):
+        # a scalar against a concrete list: empty iff the scalar is one of the items (only the length is used)
+        if is_scalar(a) and isinstance(b, (list, tuple)) and all(not is_sym(x) for x in b):
+            member = False
+            for x in b:
+                c = compare("==", a, x)
+                member = c if member is False else logic("|", member, c)
+            return _Count(ite(member, 0, 1) if is_sym(member) else (0 if member else 1))
+        raise EngineError("numpy.setdiff1d of symbolic arrays has no summary")
+
     def np_any(it, x, axis=None, **k):
         if isinstance(x, Opaque):
             return Opaque(f"np.any({x.why})")
@@ -409,6 +419,7 @@ def make_numpy(it):
         "hstack": nat(hstack, name="hstack"), "concatenate": nat(hstack, name="concatenate"),
         "vstack": nat(lambda it, xs, **k: Rows([_arr(x) for x in it.iterate(xs)]), name="vstack"),
         "errstate": nat(errstate, name="errstate"),
+        "setdiff1d": nat(np_setdiff1d, name="setdiff1d"),
         "finfo": nat(lambda it, t=float, **k: __import__("numpy").finfo(float), name="finfo"),
         "copy": nat(lambda it, x: it.call(it.stub_modules["copy"].get("copy"), [x], {}), name="copy"),
         "nan": float("nan"), "inf": float("inf"), "pi": pi(), "newaxis": None, "e": math.e,
@@ -573,6 +584,16 @@ def np_nonzero(it, c):
         m = e if _is_boolish(e) else compare("!=", e, 0)
         return (Arr(a.space, m, a.mask),)
     raise EngineError("np.nonzero of a non-array")
+
+
+class _Count:
+    """a selection of which only the number of elements is known"""
+
+    def __init__(self, n):
+        self.n = n
+
+    def sym_len(self, it):
+        return self.n
 
 
 class TypeTag:
